@@ -178,6 +178,7 @@ fn crash_check(
     held: &[Vec<(usize, usize)>],
     inflight: &[(bool, usize)], // per in-flight call: (is_get, frames)
     base_unheld: usize,         // frames allocated by the setup that no thread holds
+    stable: &[usize],           // those frames: no call of the scenario can free them
     violations: &mut Vec<Violation>,
     step: usize,
 ) {
@@ -211,6 +212,10 @@ fn crash_check(
                 v(format!("block ({f}, order {o}) held by thread {t} is (partly) free after recovery"));
             }
         }
+    }
+    // frames allocated before the threads started and never named by a call stay allocated
+    if let Some(x) = stable.iter().find(|x| guarded(|| rec.alloc.lower.is_free(FrameId(**x), 0)).unwrap_or(true)) {
+        v(format!("frame {x} was allocated before the threads started and is named by no call, but is free after recovery"));
     }
     for hs in held {
         for &(f, o) in hs {
@@ -263,6 +268,13 @@ pub fn run(sc: &Scenario, strat: &Strategy, crash_every: usize) -> Option<RunRes
     llfree::verif::set_hooks(Some((hook_pre, hook_post)));
 
     let held_init = sc.held.clone();
+    let stable: Vec<usize> = {
+        let sh = Shadow::from_words(sc.cfg.frames, &initial_shadow_words);
+        (0..sc.cfg.frames)
+            .filter(|f| sh.alloc[*f] && !held_init.iter().flatten().any(|h| h.0 <= *f && *f < h.0 + (1 << h.1)))
+            .take(4096)
+            .collect()
+    };
     let base_unheld = {
         let sh = Shadow::from_words(sc.cfg.frames, &initial_shadow_words);
         let held_frames: usize = held_init.iter().flatten().map(|h| 1usize << h.1).sum();
@@ -501,7 +513,7 @@ pub fn run(sc: &Scenario, strat: &Strategy, crash_every: usize) -> Option<RunRes
                         inflight.push((ws[0] == "get", frames));
                     }
                 }
-                crash_check(inst, &g, &inflight, base_unheld, &mut violations, step);
+                crash_check(inst, &g, &inflight, base_unheld, &stable, &mut violations, step);
             }
             if pend[pick].as_ref().is_some_and(|p| is_lower_write(inst, p)) {
                 crash_points += 1;
